@@ -24,7 +24,9 @@ out = ["# Seeded property-breaking changes", "",
        "Kinds: `bounded` = failing input found by the bounded layer and replayed on the real code; `ground-model` = a proof obligation was refuted and",
        "the solver's model replayed on the real code; `refuted` = a proof obligation was definitely refuted without a concrete input",
        "(`no-failing-input-found`). Names: `<property>-r<round>m<k>`; round 1 was produced against the pinned tree before the `fix:` commits, round 2",
-       "against the repaired tree with round 1 listed as already known; `-hand*` were written while building.", "",
+       "against the repaired tree with round 1 listed as already known; `-hand*` were written while building. Each record was produced at the /repo",
+       "commit named in its meta.json (`head`); every stored patch applies to the current HEAD (two were rebased after fix 2ad4e3f); `tools/reconfirm_all.sh`",
+       "re-runs all of them.", "",
        "| name | property | confirmed | detected | verdict of the check(s) | change |", "|---|---|---|---|---|---|"]
 for r in rows:
     out.append("| " + " | ".join(x.replace("|", "\\|") for x in r) + " |")
